@@ -90,6 +90,7 @@ type Frame struct {
 	loopHeads   map[*loopInfo]*State
 	loopPre     map[*loopInfo]*State
 	loopMeasure map[*loopInfo]*Term
+	loopIter    map[*loopInfo]*State // state at the head of an arbitrary iteration (for step clauses)
 }
 
 func (ex *Exec) warn(format string, a ...interface{}) {
@@ -795,6 +796,12 @@ func (ex *Exec) loopHead(fr *Frame, st *State, li *loopInfo, fname string) {
 	if spec != nil && spec.HasMod {
 		fr.loopHeads[li] = st.clone()
 	}
+	if spec != nil && len(spec.Steps) > 0 {
+		if fr.loopIter == nil {
+			fr.loopIter = map[*loopInfo]*State{}
+		}
+		fr.loopIter[li] = st.clone()
+	}
 	if ex.topC != nil && ex.topC.Terminates && ex.inSpec == 0 && (spec == nil || spec.Decreases == nil) && li.rangeIx == nil && !isMapRangeLoop(li) {
 		ex.prove(fname, st, "decreases", fmt.Sprintf("L%d:missing", li.ordinal), False, "loop in a function that must terminate has no decreases clause (only range loops over slices and maps are exempt)", li.head.Instrs[0].Pos())
 	}
@@ -839,6 +846,18 @@ func (ex *Exec) loopBack(fr *Frame, st *State, li *loopInfo, fname string) {
 			continue
 		}
 		ex.prove(fname, st, "inv-pres", label, g, inv.Text, li.head.Instrs[0].Pos())
+	}
+	if head := fr.loopIter[li]; head != nil {
+		// per-iteration relation: old(e) is e at the head of this (arbitrary) iteration
+		for j, sc := range spec.Steps {
+			label := fmt.Sprintf("L%d:%s", li.ordinal, clauseLabel(sc, j))
+			g, err := ex.compileBool(fr, st, head, sc.E, true)
+			if err != nil {
+				ex.bindingError(fname, "step", label, sc, err)
+				continue
+			}
+			ex.prove(fname, st, "step", label, g, sc.Text, li.head.Instrs[0].Pos())
+		}
 	}
 	if spec.Decreases != nil && fr.loopMeasure[li] != nil {
 		m, err := ex.compileInt(fr, st, fr.entry, spec.Decreases.E)
@@ -909,6 +928,10 @@ func (ex *Exec) havoc(st *State, ws *WriteSet, why string, fr *Frame) {
 		st.heap = newHeap(st.wm)
 		// ghost variables are specification state: program code cannot touch them, only contracts that name them
 		st.heap.base.except = append(append([]string{}, ws.except...), "GH:")
+		if !ws.otherAll {
+			// every reason for the havoc is a channel operation of this goroutine: storage only it touches survives
+			st.heap.base.except = append(st.heap.base.except, ex.goOwnsKeys()...)
+		}
 		st.heap.base.exceptParent = old
 		for _, k := range sortedKeyList(ws.keys) {
 			if srt, ok := keySortReg[k]; ok {
